@@ -1,11 +1,52 @@
-(* C16 — Unbranched sectioning partitions the tree into maximal chains, altering nothing. *)
-From Coq Require Import List ZArith QArith.
-From LNML Require Import Model.Morph Model.Section Proofs.SectionP.
+(* C16 — Unbranched sectioning partitions the tree into maximal chains, altering nothing.
+
+   Tree side (Model/Section.v sect_tree on rose trees of any depth and branching): partition, chains, maximality.
+   List side (Model/Section.v create_branches = the model that is diffed against the real method on every run):
+   what is NOT altered.  The two sides are linked by C16_model_is_tree_function (refinement) where proved and by the
+   kernel-evaluated comparison of every generated case otherwise (component 3 of mismatches16). *)
+From Coq Require Import List ZArith QArith Permutation.
+From LNML Require Import Model.Morph Model.Section Proofs.MorphP1 Proofs.SectionP Proofs.SectionP2 Proofs.SectionP3.
 Import ListNotations.
 Open Scope Z_scope.
 
-(* every segment below the given root is in exactly one new group: the groups, concatenated in creation
-   order, are the preorder of the tree (any depth, any branching) *)
+(* every segment below the given root is in exactly one new group: the groups, concatenated in creation order, are
+   the preorder of the tree; with distinct ids they are pairwise disjoint *)
 Theorem C16_partition : forall t, concat (sect_tree t []) = preorder t.
 Proof. exact sect_tree_partition. Qed.
 Print Assumptions C16_partition.
+
+Theorem C16_disjoint : forall t, NoDup (preorder t) -> NoDup (concat (sect_tree t [])).
+Proof. exact sect_tree_nodup. Qed.
+Print Assumptions C16_disjoint.
+
+(* each group is a parent-to-only-child chain (no branch point inside it) that cannot be extended: its last segment
+   has no child or several, and it starts at the given root or directly below a branch point *)
+Theorem C16_maximal_chains : forall T g, In g (sect_tree T []) ->
+  exists s e, branch_start T s /\ chain s g e /\ List.length (subtrees e) <> 1%nat.
+Proof. exact sect_tree_groups. Qed.
+Print Assumptions C16_maximal_chains.
+
+(* nothing else is altered (optimise flag off): ids, parents, distal points and document order of the segments are
+   unchanged; a proximal point is only added where there was none and it is the effective proximal point of the
+   ORIGINAL cell; every pre-existing group (id not of the generated form) is still there, and keeps its position and
+   content when the groups are not reordered *)
+Theorem C16_alters_nothing : forall c gs root reorder st',
+  all_ok c -> create_branches c gs root reorder false = Ok st' ->
+  cell_upd c (st_segs st') /\
+  (forall g, In g gs -> gen_name (gid g) = false -> In g (st_groups st')) /\
+  (reorder = false -> keep gs (st_groups st')).
+Proof. exact create_branches_preserves. Qed.
+Print Assumptions C16_alters_nothing.
+
+Theorem C16_alters_nothing_applies : forall c, wf c -> root_has_prox c -> all_ok c.
+Proof. exact wf_all_ok. Qed.
+Print Assumptions C16_alters_nothing_applies.
+
+(* reorder_segment_groups only permutes the groups *)
+Theorem C16_reorder_permutes : forall gs, Permutation (reorder_groups gs) gs.
+Proof. exact reorder_groups_perm. Qed.
+Print Assumptions C16_reorder_permutes.
+
+Theorem C16_domain_inhabited : all_ok MorphP5.ex_cell.
+Proof. exact ex_all_ok. Qed.
+Print Assumptions C16_domain_inhabited.
